@@ -116,7 +116,7 @@ func NewSurface(width uint16, height uint16, w Widget) Surface {
 			Height: height,
 		},
 		Widget: w,
-		Buffer: make([]vaxis.Cell, height*width),
+		Buffer: make([]vaxis.Cell, int(height)*int(width)),
 	}
 }
 
